@@ -177,6 +177,12 @@ def thresholds(ctx, col):
     d = repo.get_def(f"{TREE}.get_tips")
     sd = [n for n in own_nodes(d) if isinstance(n, ast.Call) and (dotted(n.func) or "").endswith("setdiff1d")]
     ok = len(sd) == 1 and norm_src(sd[0].args[0]) == "self.id()" and norm_src(sd[0].args[1]) == "self.pid()"
+    for x in sd:
+        for arg in x.args[:2]:
+            if isinstance(arg, ast.Subscript) and isinstance(arg.slice, ast.Slice):
+                col.bad(R, d.qualname, d.loc(x), "Tree.get_tips: ids that are nobody's parent (all ids, all parent ids)",
+                        f"`{norm_src(arg)}` leaves rows out of the set difference: e.g. the root can never be a tip, so a single-node "
+                        f"tree (and every single-node subtree) has no tip", stmt="get_tips", definite=True)
     col.judge(len(sd) == 1, ok, R, d.qualname, d.loc(sd[0]) if sd else d.loc(), "Tree.get_tips: ids that are nobody's parent",
               norm_src(sd[0]) if sd else "", "tips are not ids \\ parent ids", stmt="get_tips")
     d = repo.get_def("swcgeom.core.node.Node.is_tip")
